@@ -1,3 +1,4 @@
+mod alloc;
 mod check;
 mod game;
 mod mirror;
@@ -8,11 +9,15 @@ mod props;
 mod rng;
 mod scenarios;
 mod shrink;
+mod sweep;
 mod synctest;
 mod truth;
 mod twins;
 mod types;
 mod world;
+
+#[global_allocator]
+static GLOBAL: alloc::Counting = alloc::Counting;
 
 fn main() {
     let args: Vec<String> = std::env::args().collect();
@@ -29,6 +34,8 @@ fn main() {
                 }
             }
         }
+        "probe-batch" => sweep::probe_batch_main(),
+        "probe-decode" => sweep::probe_decode_main(args.get(2).map(|s| s.as_str()).unwrap_or(""), args.get(3).map(|s| s.as_str()).unwrap_or("")),
         "replay" => check::replay_file(args.get(2).expect("replay file")),
         "gen" => {
             let id = args.get(2).expect("property id");
